@@ -177,6 +177,15 @@ func (ms *Mentions) walk(t *Type, v *Value) {
 	if v.Kind == VIdent && v.RefConst != nil {
 		return // the constant itself is walked where it is defined
 	}
+	if v.Kind == VIdent && v.RefEnum != nil {
+		// an enum member named by the value, whatever the declared type (an
+		// integer may be written as an enum member)
+		for _, ev := range v.RefEnum.Values {
+			if ev.Name == v.RefVal {
+				ms.Members[ev] = true
+			}
+		}
+	}
 	ft := t.Final()
 	switch {
 	case ft.Ref != nil && ft.Ref.Kind == KEnum:
